@@ -133,8 +133,8 @@ def local_label(what, layout, new, o_use, key0):
         return f"{what}:use-site-{c.split('(')[0]}"
     if o_use is not None and o_use.role == "member":
         ti, toks = o_use.tok_i, o_use.stmt.toks
-        while ti >= 2 and toks[ti - 1] == "%":
-            ti -= 2
+        while fmodel.chain_prev(toks, ti) is not None:
+            ti = fmodel.chain_prev(toks, ti)
             b = toks[ti]
             if isinstance(b, fmodel.Ref):
                 if isinstance(b.ent.typ, tuple):
